@@ -10,7 +10,15 @@ def to_behaviour(i, r):
     first = True
     for a in r["apps"]:
         c = {"do": "apply", "h": "h", "dir": a["dir"],
-             "expect": {"count": a["count"]}}
+             "expect": {"count": a["count"], "honest": True}}
+        if a.get("unspecified"):
+            # swap on < 2 elements / drop: only what holds for every application is required
+            c["expect"] = {"honest": True}
+            if first:
+                c["data"] = r["data"]
+                first = False
+            calls.append(c)
+            continue
         if first:
             c["data"] = r["data"]
             first = False
@@ -23,9 +31,9 @@ def to_behaviour(i, r):
     return {"id": i, "ctx": "minimal", "calls": calls, "spec": r}
 
 
-def classify(res, mism):
+def classify(res, mism, prop=PROP):
     """Sort mismatches into known findings and violations."""
-    kf = {k["id"]: k for k in vlib.known_findings(PROP)}
+    kf = {k["id"]: k for k in vlib.known_findings(prop)}
     for m in mism:
         b = m["behaviour"]
         fails = m["fails"]
@@ -34,7 +42,7 @@ def classify(res, mism):
         # every failure is a missing NaN after an application in which a legacy pop underflowed
         # (the count, 0, was right - a wrong count is a different failure kind).
         if "KF-legacy-pop-underflow-masked" in kf and all(
-                f["what"] == "nan_each" and b["calls"][f["call"]].get("legacy_underflow") for f in fails):
+                f["what"] in ("nan_each", "dishonest_count") and b["calls"][f["call"]].get("legacy_underflow") for f in fails):
             res.add_known("KF-legacy-pop-underflow-masked", kf["KF-legacy-pop-underflow-masked"]["what"])
             continue
         v = {"suite": "stack", "behaviour": b, "fails": fails, "def": b["calls"][0]["def"],
